@@ -1,7 +1,8 @@
 ---- MODULE MC_Registry ----
 EXTENDS PsaRegistry
 MCKinds == [X1 |-> [p |-> "P1", tag |-> "psa-profile"], X2 |-> [p |-> "P2", tag |-> "eat-profile"],
-            X4 |-> [p |-> "P1", tag |-> "my-profile"], X5 |-> [p |-> "P1", tag |-> "none"], X6 |-> [p |-> "P1", tag |-> "none"]]
+            X4 |-> [p |-> "P1", tag |-> "my-profile"], X5 |-> [p |-> "P1", tag |-> "none"], X6 |-> [p |-> "P1", tag |-> "none"],
+            X7 |-> [p |-> "P2", tag |-> "eat-profile"]]        \* base claims behind an embedded interface
 \* JSON documents: only the members that matter for dispatch
 JM(name, t, str) == [name |-> name, t |-> t, v |-> 0, b64 |-> FALSE, hb |-> "", hs |-> "", n |-> 0, str |-> str, arr |-> <<>>, obj |-> <<>>]
 JDoc(members) == [name |-> "", t |-> "object", v |-> 0, b64 |-> FALSE, hb |-> "", hs |-> "", n |-> Len(members), str |-> "", arr |-> <<>>, obj |-> members]
